@@ -24,7 +24,8 @@ def describe(tier):
         rule='Built-in tables: every key of Config({syntax: s}).snippets for s in html, xsl, pug x contexts [., .>k, p>., p>.+q, (.)*2] and, '
              'for simple definitions name[attrs]/?, [..x, .[data-k=v], .{t}, .*2>k, ./] x {default, reverseAttributes}: '
              'expand(C[alias]) == expand(C[(definition)]). User tables: all %d^3 tables {ka, kb, kc} -> definitions %s x start names %s: '
-             'terminates, resolve nesting <= 3 (+1 for the call that hits the guard / a non-snippet), alias == definition when acyclic. '
+             'terminates, resolve nesting <= 3 (+1 for the call that hits the guard / a non-snippet), alias == definition when acyclic, and for every table '
+             '(cyclic ones too) expand(A+B) = expand(A) expand(B), expand(p>A+B) = <p>..</p> for every pair of names. '
              'Transition = next context / next table entry.' % (len(b['defs']), b['defs'], b['start']),
         nontrivial='every alias/definition pair (two expansions compared) and every user table.',
         bounds=b,
@@ -161,6 +162,17 @@ def check_user(table, start):
         return bad, d.max
     if d.max > len(table) + 1:
         bad.append(('user-table:resolution-nests-deeper-than-the-number-of-snippets', dict(table=table, start=start, depth=d.max)))
+    # context independence (also for cyclic tables): what an alias expands to does not depend on what was resolved before it in
+    # the same abbreviation, and siblings / a parent do not change it
+    for other in sorted(table):
+        ro = ex(other, dict(cfg))
+        if isinstance(ro, tuple):
+            continue
+        for name, a, want in (('sibling-after', '%s+%s' % (other, start), ro + ra), ('sibling-before', '%s+%s' % (start, other), ra + ro),
+                              ('under-parent', 'p>%s+%s' % (other, start), '<p>' + ro + ra + '</p>')):
+            r = ex(a, dict(cfg))
+            if r != want:
+                bad.append(('user-table:alias-depends-on-its-context:%s' % name, dict(table=table, abbr=a, actual=r, expected=want)))
     if not cyclic_from(table, start):
         for ctx_name, a, dd in (('alone', start, '(%s)' % table[start]), ('as-child-with-sibling', 'p>%s+q' % start, 'p>(%s)+q' % table[start]),
                                 ('repeated-group', '(%s)*2' % start, '((%s))*2' % table[start])):
